@@ -120,6 +120,13 @@ def check_factory(case, ctx: Ctx):
     elif kind == "exponential":
         if rng is None:
             require(first <= lo * (1 + 1e-12) and last >= hi * (1 - 1e-12), "not_covered", f"[{first!r},{last!r}] vs data [{lo!r},{hi!r}]")
+        else:
+            require(first <= rng[0] * (1 + 1e-12) and last >= rng[1] * (1 - 1e-12), "range_not_covered", f"[{first!r},{last!r}] vs range {rng}")
+            require(first >= rng[0] * (1 - 1e-12) and last <= rng[1] * (1 + 1e-12), "range_exceeded", f"[{first!r},{last!r}] vs range {rng}")
+    elif kind == "integer" and rng is not None:
+        # documented: range = (first integer included, last integer excluded)
+        bw_ = kwargs.get("bin_width", 1)
+        require(first <= rng[0] - 0.5 < first + bw_ and last - bw_ < rng[1] - 0.5 <= last, "integer_range", f"[{first!r},{last!r}] for integers {rng}")
     elif kind == "quantile":
         q = spec.get("qs")
         qr = kwargs.get("qrange")
@@ -191,7 +198,9 @@ def check_factory(case, ctx: Ctx):
             lo_, hi_ = (rng if rng is not None else (lo, hi))
             bc = kwargs.get("bin_count")
             if bc is None:
-                bc = 7 if n <= 32 else math.ceil(math.log2(n)) + 1
+                # the default bin count looks only at the values inside the requested range
+                n_eff = n if rng is None else sum(1 for v in data if rng[0] <= v <= rng[1])
+                bc = 1 if n_eff < 1 else (7 if n_eff <= 32 else math.ceil(math.log2(n_eff)) + 1)
             raw = (hi_ - lo_) / bc
             k = math.floor(math.log10(w) + 1e-12)
             mant = w / 10.0 ** k
@@ -207,6 +216,10 @@ def check_factory(case, ctx: Ctx):
                 require(w >= clamp_lo, "below_min_bin_width", f"{w} < {clamp_lo}")
             if clamp_hi:
                 require(w <= clamp_hi, "above_max_bin_width", f"{w} > {clamp_hi}")
+        if rng is not None and kind != "integer":
+            # tight around the requested range as well
+            # (an end of the range that nominally sits on a grid edge may get one more bin through rounding)
+            require(first + w > rng[0] - 1e-9 * w and last - w < rng[1] + 1e-9 * w, "superfluous_bin_outside_range", f"[{first!r},{last!r}] width {w!r} range {rng}")
         if rng is None:
             # tight: no superfluous empty bin on either side
             require(model.locate(ps, lo, False) in (0,), "superfluous_left_bin", f"min {lo!r} first bins {ps[:2]}")
@@ -317,10 +330,14 @@ def factory_cases(draw, tier="quick"):
             kw["align"] = False
         elif draw(st.booleans()):
             kw["bin_shift"] = kw["bin_width"] * draw(st.sampled_from([0.5, 0.25]))
+        if draw(st.integers(0, 2)) == 0:
+            kw["range"] = [lo - span * draw(st.sampled_from([0.0, 0.5, -0.25])), hi + span * draw(st.sampled_from([0.0, 0.25, 1.0, -0.25]))]
     elif kind == "pretty":
         spec["arg"] = "pretty"
         if draw(st.booleans()):
             kw["bin_count"] = draw(st.integers(1, 40))
+        if draw(st.integers(0, 2)) == 0:
+            kw["range"] = [lo - span * draw(st.sampled_from([0.0, 0.5, -0.25])), hi + span * draw(st.sampled_from([0.0, 0.25, 1.0, -0.25]))]
         r = draw(st.integers(0, 5))
         if r == 0:
             kw["min_bin_width"] = span / 3
@@ -330,6 +347,8 @@ def factory_cases(draw, tier="quick"):
         spec["arg"] = "integer"
         if span > 3000:
             kw["bin_width"] = int(span // 100) + 1
+        elif draw(st.integers(0, 2)) == 0 and abs(lo) < 1e6 and abs(hi) < 1e6:
+            kw["range"] = [math.floor(lo) - draw(st.integers(0, 3)), math.ceil(hi) + 1 + draw(st.integers(0, 3))]
     elif kind == "quantile":
         spec["arg"] = "quantile"
         if draw(st.booleans()):
@@ -346,6 +365,8 @@ def factory_cases(draw, tier="quick"):
         spec["arg"] = "exponential"
         if draw(st.booleans()):
             kw["bin_count"] = draw(st.integers(1, 20))
+        if draw(st.integers(0, 2)) == 0:
+            kw["range"] = [max(lo * draw(st.sampled_from([1.0, 0.5, 0.01])), 1e-300), hi * draw(st.sampled_from([1.0, 2.0, 100.0]))]
     elif kind == "edges":
         spec["arg"] = draw(gen.edges(1, 12))
     else:
